@@ -247,6 +247,9 @@ impl Prop for C09 {
         }
         let ctx = &mut case.ctx;
         let sys = case.sys.clone();
+        for n in crate::refeval::reachable(ctx, &case.sys.get_all_exprs()) {
+            rec.label(&format!("op:{}", crate::refeval::op_name(&ctx[n])));
+        }
         rec.eval();
         let mut rng = SplitMix(hash_bytes(tape));
         let Some((text, sys2)) = roundtrip(ctx, &sys, &mut rng, 14, 64, rec)? else {
